@@ -6,7 +6,20 @@ package cesium
 
 //@ guarded_by DB.mu.dbs.unary mu
 //@ guarded_by DB.mu.dbs.virtual mu
-//@ guarded_by DB.mu.digests.key mu
+//@ # helpers that rely on their callers holding db.mu (checked at every call site)
+//@ requires_held DB.retrieveChannel mu R
+//@ requires_held DB.renameChannel mu W
+//@ requires_held DB.createChannel mu W
+//@ requires_held DB.validateNewChannel mu W
+//@ requires_held DB.removeChannel mu W
+//@ requires_held DB.newStreamIterator mu R
+//@ requires_held DB.newStreamWriter mu R
+//@ requires_held DB.expandKeysForAutoIndex mu R
+//@ requires_held DB.openDomainIdxWriter mu R
+//@ requires_held DB.openVirtualOrUnary mu W
+//@ requires_held DB.openVirtual mu W
+//@ requires_held DB.openUnary mu W
+//@ unshared Open the database is built before it is reachable from any other goroutine
 
 //@ # ---------------------------------------------------------------- channel deletion (C15: "a deleted channel can no
 //@ # longer be retrieved, written or read at either layer")
